@@ -1034,7 +1034,7 @@ class Processor:
                 for eleidx, element in enumerate(data):
                     next_translated_path = translated_path + "[{}]".format(
                         eleidx)
-                    next_ancestry = ancestry + [(data, stripped_attrs)]
+                    next_ancestry = ancestry + [(data, eleidx)]
                     for node_coord in self._get_nodes_by_path_segment(
                             element, yaml_path, segment_index, parent=data,
                             parentref=eleidx, traverse_lists=traverse_lists,
